@@ -18,7 +18,7 @@ PID = "C05"
 
 INVALID_KINDS = ["past1", "at0", "at_last", "first_offset", "offsets_order", "indices_order", "overlap",
                  "offset_eq_len", "offset_gt_len", "len_mismatch", "blocks_past", "blocks_equal_index", "overlap_late",
-                 "indices_order_late", "overlap_early"]
+                 "indices_order_late", "overlap_early", "negative_first", "negative_w"]
 
 
 def invalid_op(kind, cursor, last_rel):
@@ -54,6 +54,10 @@ def invalid_op(kind, cursor, last_rel):
         return ("wb", [c - 1, c + 5], [0, 2], 4) if c >= 1 else None
     if kind == "blocks_equal_index":
         return ("wb", [c, c], [0, 2], 4)
+    if kind == "negative_first":  # signed index arrays (lists, int64) with a negative first entry
+        return ("wb", [-1, c + 5], [0, 2], 4)
+    if kind == "negative_w":
+        return ("w", -1, 2)
     raise ValueError(kind)
 
 
@@ -213,7 +217,7 @@ def run_job(job):
                 if not part["samples"]:
                     part["samples"].append({"label": label, "history": hist, "invalid_positions": bad})
         else:
-            capi_kinds = [k for k in INVALID_KINDS if k != "len_mismatch"]
+            capi_kinds = [k for k in INVALID_KINDS if k not in ("len_mismatch", "negative_first", "negative_w")]
             for hist, bad in variants(base, kinds=capi_kinds):
                 errs = check_capi_history(cfg, hist, bad, seed)
                 part["evaluations"] += 1
